@@ -289,7 +289,7 @@ fn check_exec(ctx: &Ctx, cfg: &ExecCfg, want: &(Vec<f64>, Vec<usize>, Vec<u32>),
 fn direct(ctx: &Ctx) {
     // (n, total split, timer choices?, deviation bound, nuts?)
     let plans: Vec<(usize, usize, usize, bool, usize, bool)> = if ctx.tier.thorough() {
-        vec![(1, 4, 0, true, 4, false), (2, 4, 0, true, 3, false), (2, 4, 1, false, 4, false), (3, 4, 1, true, 2, false), (3, 5, 0, false, 3, false), (6, 4, 0, false, 2, false), (2, 4, 0, true, 2, true), (2, 4, 1, false, 3, true), (3, 4, 0, false, 2, true)]
+        vec![(1, 4, 0, true, 5, false), (2, 4, 0, true, 4, false), (2, 4, 1, false, 5, false), (2, 6, 3, true, 3, false), (3, 4, 1, true, 3, false), (3, 5, 0, false, 4, false), (4, 4, 0, false, 3, false), (6, 4, 0, false, 2, false), (2, 4, 0, true, 3, true), (2, 4, 1, false, 3, true), (3, 4, 0, false, 2, true)]
     } else {
         vec![(1, 4, 0, true, 2, false), (2, 4, 0, true, 2, false), (3, 4, 1, false, 2, false), (6, 4, 0, false, 1, false), (2, 4, 0, true, 1, true)]
     };
